@@ -1,7 +1,7 @@
 //! Generated inputs of E1: programs (what every thread does) and cases (program + schedule spec),
 //! their proptest strategies, and the per-property profiles (weights).
 #![allow(dead_code)]
-use crate::rt::{Freeze, Mode, Policy, Spec};
+use crate::rt::{Freeze, Mode, Policy, Role, Spec};
 use proptest::prelude::*;
 use serde::{Deserialize, Serialize};
 
@@ -81,6 +81,10 @@ pub enum Op {
     MapLoad(u8),
     /// A-B-A on the pointer: swap a fresh value in, then swap the very same old pointer back
     Aba(u8),
+    /// address recycling across containers: replace and release the value of container a, then
+    /// store two fresh values into container b (with address reuse the first one tends to land on
+    /// the address just freed, the second store removes it again and walks the debts)
+    Recycle(u8, u8),
 }
 
 #[derive(Clone, Debug, PartialEq, Eq, Serialize, Deserialize)]
@@ -158,6 +162,9 @@ pub struct Profile {
     pub w_panicky: u32,
     pub w_map: u32,
     pub w_aba: u32,
+    pub w_recycle: u32,
+    /// weight of the role-triggered Stall policy among the schedule policies (Rand = 5, PCT = 2)
+    pub w_stall: u32,
     pub rcu_panic: bool,
     pub rcu_nested: bool,
     pub late: u32,   // percent chance (per extra thread) of a late-starting thread
@@ -206,6 +213,8 @@ impl Profile {
             w_panicky: 0,
             w_map: 0,
             w_aba: 0,
+            w_recycle: 0,
+            w_stall: 2,
             rcu_panic: false,
             rcu_nested: false,
             late: 30,
@@ -277,6 +286,7 @@ fn op_strategy(p: &Profile, ncont: u8, nthreads: u8) -> BoxedStrategy<Op> {
     add(p.w_panicky, c.clone().prop_map(Op::StorePanicky).boxed());
     add(p.w_map, c.clone().prop_map(Op::MapLoad).boxed());
     add(p.w_aba, c.clone().prop_map(Op::Aba).boxed());
+    add(p.w_recycle, (c.clone(), c.clone()).prop_map(|(a, b)| Op::Recycle(a, b)).boxed());
     proptest::strategy::Union::new_weighted(alts).boxed()
 }
 
@@ -341,19 +351,23 @@ pub fn spec_strategy(p: &Profile, nthreads_hint: usize) -> BoxedStrategy<Spec> {
         }
         proptest::strategy::Union::new_weighted(v)
     };
+    let nth = nthreads_hint.max(1) as u8;
     let policy = if p.burst {
         prop_oneof![(Just(0u8), prop_oneof![Just(1u8), Just(2u8), Just(4u8)]).prop_map(|(r, k)| Policy::Burst { reader: r, k })].boxed()
     } else {
+        let park = prop_oneof![3 => Just(Role::Storage), 2 => Just(Role::FastSlot), 1 => Just(Role::HelpSlot), 1 => Just(Role::Control), 1 => Just(Role::Strong), 1 => Just(Role::ActiveAddr)];
+        let wake = prop_oneof![3 => Just(Role::ActiveWriters), 2 => Just(Role::Storage), 1 => Just(Role::FastSlot), 1 => Just(Role::Control), 1 => Just(Role::HelpSlot)];
+        let stall = (0..nth, park, 1u8..4, wake, 1u8..5, 1u8..7).prop_map(|(victim, park_role, park_nth, wake_role, wake_nth, run)| Policy::Stall { victim, park_role, park_nth, wake_role, wake_nth, run });
         prop_oneof![
             5 => prop_oneof![Just(16u8), Just(32u8), Just(64u8), Just(128u8)].prop_map(|p| Policy::Rand { p }),
             2 => (1u8..5, 40u16..600).prop_map(|(d, len)| Policy::Pct { d, len }),
+            p.w_stall.max(1) => stall,
         ]
         .boxed()
     };
     let stale = prop_oneof![Just(32u8), Just(64u8), Just(128u8)];
     let budget = p.budget;
     let fz = p.freeze;
-    let nth = nthreads_hint.max(1) as u8;
     let freeze = (0u32..100, 0u32..400, 0..nth, 1u8..3).prop_map(move |(x, at, keep, n)| if x < fz { Some(Freeze { at, keep, n_ops: n }) } else { None });
     (mode, policy, any::<u64>(), stale, freeze)
         .prop_map(move |(mode, policy, seed, stale, freeze)| Spec { mode, policy, seed, stale: if mode == Mode::SC { 0 } else { stale }, spurious: 8, freeze, budget, decisions: None })
